@@ -3,8 +3,10 @@
   Model: `Snmp.Trap`.
 -/
 import Snmp.Model.Trap
+import Snmp.Lemmas.TrapWireLemmas
+import Snmp.Props.C06
 namespace Snmp.Props.C19
-open Snmp.Trap
+open Snmp Snmp.Trap
 
 /-- a well-formed SNMPv2c notification for the listener's community -/
 def matching (community : Bytes) (d : Dgram) : Prop :=
@@ -80,5 +82,50 @@ theorem C19_trapinfo (src : Source) (up oid : VarBind) (rest : List VarBind) :
 example : deliveries [112] [(⟨"10.0.0.1", 5000⟩, .malformed), (⟨"10.0.0.2", 5001⟩, .msg ⟨1, [112], 7, []⟩),
     (⟨"10.0.0.3", 5002⟩, .msg ⟨1, [113], 7, []⟩)] = [⟨some ⟨"10.0.0.2", 5001⟩, 7, []⟩] := by
   simp [deliveries, List.filterMap_cons, receive, versionOk]
+
+/-- **From the octets on.**  For EVERY SNMPv2c notification an agent writes — message wrapper,
+    version 1, the listener's community, a Trap PDU with any bindings, every TLV in its own admissible
+    length form, every value TLV one the specification reads as intended (`Glue.WritesMsg e m "Trap"`) —
+    the per-datagram decoder of `register_trap_callback` (forced sequence readout, version → model,
+    x690 mirror, wrapper glue, community / version check, bindings taken apart) delivers exactly one
+    Trap carrying the sender's address and exactly the bindings sent. -/
+theorem C19_from_wire (e : Ber.Enc) (m : Ops.RespMsg) (h : Glue.WritesMsg e m "Trap") (community : Bytes) (src : Source)
+    (hv : m.version = 1) (hc : m.community = community) (hes : m.pdu.errorStatus = 0)
+    (fuel depth : Nat) (hw : e.width ≤ fuel) (hd : e.depth ≤ depth) :
+    receiveWire community src e.bytes fuel depth = some ⟨some src, 7, m.pdu.varbinds⟩ := by
+  have hread := C06.C06_message_readback e m "Trap" h fuel depth hw hd
+  obtain ⟨hwf, tr, htree, hmsg⟩ := Glue.writesMsg_read h
+  obtain ⟨f, t, ev, ec, ep, rfl, _⟩ := h
+  have hforced := forced_cons f t [ev, ec, ep] hwf fuel depth hw (by omega)
+  obtain ⟨n, vc, cc, sc, p, rfl⟩ := msgOfTree_shape hmsg
+  simp only [Ber.Enc.tree, bind, Except.bind, pure, Except.pure] at htree
+  cases htl : Ber.Enc.treeL [ev, ec, ep] with
+  | error err => simp [htl] at htree
+  | ok ts =>
+    simp only [htl, Except.ok.injEq, Ber.Tree.seq.injEq] at htree
+    rw [htl] at hforced
+    simp only [Except.map, htree.2] at hforced
+    unfold receiveWire
+    rw [hforced, hread]
+    simp [hv, Ops.mpmDecode, hc, Ops.forcePdu, hes, bind, Except.bind, pduTagOf]
+    decide
+
+/-- … and a foreign community is dropped, whatever else the datagram holds -/
+theorem C19_from_wire_foreign (e : Ber.Enc) (m : Ops.RespMsg) (cls : String) (h : Glue.WritesMsg e m cls) (community : Bytes)
+    (src : Source) (hc : m.community ≠ community) (fuel depth : Nat) (hw : e.width ≤ fuel) (hd : e.depth ≤ depth) :
+    receiveWire community src e.bytes fuel depth = none := by
+  have hread := C06.C06_message_readback e m cls h fuel depth hw hd
+  unfold receiveWire
+  split
+  · rename_i ver _ _
+    simp only [hread]
+    by_cases h1 : ver = 1
+    · simp [h1, Ops.mpmDecode, hc, bind, Except.bind]
+    · by_cases h0 : ver = 0
+      · simp only [h1, h0, ↓reduceIte]
+        simp only [Ops.mpmDecode, bind, Except.bind]
+        cases Ops.forcePdu m.pdu <;> simp [hc]
+      · simp [h1, h0]
+  · rfl
 
 end Snmp.Props.C19
